@@ -11,6 +11,7 @@ import TerwayModel.Driver.Webhook
 import TerwayModel.Driver.Daemon
 import TerwayModel.Driver.Pool
 import TerwayModel.Driver.Ipam
+import TerwayModel.Driver.PodEni
 /-
 `drv`: reads one operation per line (`<model>.<op> arg…`), prints one canonical line per input.
 Malformed or unknown lines print `bad-op` — never a default value.
@@ -23,6 +24,7 @@ structure St where
   fib : DatapathD.FibSt := {}
   dm : DaemonD.St := DaemonD.St.init
   pl : PoolD.St := {}
+  pe : PodEniD.St := {}
 
 def dispatch (st : St) (line : String) : St × String :=
   match words line with
@@ -43,6 +45,10 @@ def dispatch (st : St) (line : String) : St × String :=
     | ["cfg", op] => (st, (JsonD.step op args).getD "bad-op")
     | ["cni", op] => (st, (JsonD.chainStep op args).getD "bad-op")
     | ["ip", op] => (st, (IpamD.step op args).getD "bad-op")
+    | ["pe", op] =>
+      match PodEniD.step st.pe op args with
+      | some (t, o) => ({ st with pe := t }, o)
+      | none => (st, "bad-op")
     | ["pl", op] =>
       match PoolD.step st.pl op args with
       | some (t, o) => ({ st with pl := t }, o)
